@@ -49,6 +49,10 @@ op = st.one_of(
                   min_size=2, max_size=3)),
     st.builds(lambda k: {"op": "leave", "which": k}, st.integers(0, 7)),
     st.builds(lambda g: {"op": "genter", "group": g}, st.integers(0, 1)),
+    # the terminal is walked through its state machine while mappings are
+    # live (SyncGroupBase.run does that right after mapping), with or without
+    # an error flag to acknowledge
+    st.builds(lambda e: {"op": "toop", "error": e}, st.booleans()),
     st.builds(lambda g: {"op": "gleave", "group": g}, st.integers(0, 1)),
 )
 
@@ -59,6 +63,8 @@ def strategy(tier):
         "groups": st.lists(st.sampled_from(["out", "in", "both"]),
                            min_size=2, max_size=2),
         "ops": st.lists(op, min_size=1, max_size=14),
+        "init_real": st.booleans(),
+        "sms": st.integers(2, 8),
     })
 
 
@@ -90,6 +96,19 @@ def run_case(case):
         t.position = 5
         t.name = "T"
         t.fmmu_used = [None] * n
+        if case.get("init_real"):
+            # the FMMU pool as the real initialisation sets it up (from the
+            # terminal's registers; the sync manager count differs)
+            term.mem[5] = case.get("sms", 4)
+            term.eeprom = bytes(0x80) + b"\xff\xff"
+            try:
+                await t.initialize(absolute=5)
+            except Exception as e:
+                return f"Terminal.initialize raised {type(e).__name__}: {e}"
+            if len(t.fmmu_used) != n:
+                return (f"after initialize() the FMMU pool has "
+                        f"{len(t.fmmu_used)} slots, the terminal has {n} "
+                        f"FMMUs ({term.mem[5]} sync managers)")
         t.pdo_out_off, t.pdo_out_sz = OUT_OFF, OUT_SZ
         t.pdo_in_off, t.pdo_in_sz = IN_OFF, IN_SZ
         live = []      # dicts: cm, slot(s), write, logical, group
@@ -165,6 +184,22 @@ def run_case(case):
                     live.append(dict(cm=cm, slots=[slot], group=None,
                                      maps=[(item["logical"], item["write"])]))
                 w = check_live("after concurrent enters")
+                if w:
+                    return w
+            elif o["op"] == "toop":
+                kinds.append("T" + ("e" if o["error"] else ""))
+                if o["error"]:
+                    term.al_error = True
+                    term.al_code = 0x1b
+                try:
+                    await t.to_operational()
+                except Exception:
+                    kinds[-1] += "!"
+                if t.fmmu_used != before_used:
+                    return (f"a state change of the terminal changed the "
+                            f"FMMU slot table: {before_used} -> "
+                            f"{t.fmmu_used}")
+                w = check_live("after a state change")
                 if w:
                     return w
             elif o["op"] == "leave":
